@@ -13,9 +13,9 @@ Lemma byte_pull_sim : forall s1 s2 i1 i2, RS s1 s2 -> RI i1 i2 ->
   l1 = l2 /\ n1 = n2 /\ RS t1 t2 /\ RI j1 j2.
 Proof. exact pull_refines. Qed.
 
-Lemma byte_read_sim : forall raw i1 i2, RI i1 i2 ->
-  let '(c1, f1, j1, n1) := op_read byte_ops raw i1 in
-  let '(c2, f2, j2, n2) := op_read line_ops raw i2 in
+Lemma byte_read_sim : forall raw d i1 i2, RI i1 i2 ->
+  let '(c1, f1, j1, n1) := op_read byte_ops raw d i1 in
+  let '(c2, f2, j2, n2) := op_read line_ops raw d i2 in
   c1 = c2 /\ f1 = f2 /\ n1 = n2 /\ RI j1 j2.
 Proof. exact read_refines. Qed.
 
@@ -25,8 +25,8 @@ Lemma byte_slurp_sim : forall i1 i2, RI i1 i2 ->
   c1 = c2 /\ n1 = n2 /\ RI j1 j2.
 Proof. exact slurp_refines. Qed.
 
-Lemma model_refines_spec_lemma parser fuel src d :
-  model_run parser fuel src d = spec_run parser fuel (abs_src src) (abs_dev d).
+Lemma model_refines_spec_lemma parser fuel pf src d :
+  model_run parser fuel pf src d = spec_run parser fuel pf (abs_src src) (abs_dev d).
 Proof.
   unfold model_run, spec_run.
   apply (run_sim byte_ops line_ops RI RS parser byte_pull_sim byte_read_sim byte_slurp_sim).
@@ -34,23 +34,23 @@ Proof.
   - reflexivity.
 Qed.
 
-Lemma chunking_irrelevant_lemma parser fuel (d1 d2 : dev) :
+Lemma chunking_irrelevant_lemma parser fuel pf (d1 d2 : dev) :
   concat d1 = concat d2 ->
-  model_run parser fuel SrcStdin d1 = model_run parser fuel SrcStdin d2.
+  model_run parser fuel pf SrcStdin d1 = model_run parser fuel pf SrcStdin d2.
 Proof.
   intros H. rewrite !model_refines_spec_lemma. unfold abs_dev. now rewrite H.
 Qed.
 
-Lemma chunking_irrelevant_own_lemma parser fuel (s1 s2 d1 d2 : dev) :
+Lemma chunking_irrelevant_own_lemma parser fuel pf (s1 s2 d1 d2 : dev) :
   concat s1 = concat s2 -> concat d1 = concat d2 ->
-  model_run parser fuel (SrcOwn s1) d1 = model_run parser fuel (SrcOwn s2) d2.
+  model_run parser fuel pf (SrcOwn s1) d1 = model_run parser fuel pf (SrcOwn s2) d2.
 Proof.
   intros Hs H. rewrite !model_refines_spec_lemma. unfold abs_dev, abs_src. now rewrite H, Hs.
 Qed.
 
 (* a script file and a command string with the same text behave alike *)
-Lemma file_equals_string_lemma parser fuel (s d : dev) :
-  model_run parser fuel (SrcOwn s) d = model_run parser fuel (SrcMem (split_lines (concat s))) d.
+Lemma file_equals_string_lemma parser fuel pf (s d : dev) :
+  model_run parser fuel pf (SrcOwn s) d = model_run parser fuel pf (SrcMem (split_lines (concat s))) d.
 Proof. rewrite !model_refines_spec_lemma. reflexivity. Qed.
 
 Lemma concat_chunk (sizes : list nat) (x : list N) : concat (chunk sizes x) = x.
@@ -63,39 +63,39 @@ Qed.
 (* ------------------------------------------------------------------ *)
 (* The parse phase at byte level.                                      *)
 
-Lemma pull_loop_bytes parser pf st fed src d off eof :
-  let '(ph1, (t1, j1, o1, e1)) := pull_loop byte_ops parser pf st fed src d off eof in
-  let '(ph2, (t2, j2, o2, e2)) :=
-    pull_loop line_ops parser pf st fed (abs_src src) (abs_dev d) off eof in
-  ph1 = ph2 /\ o1 = o2 /\ e1 = e2 /\ RS t1 t2 /\ RI j1 j2.
+Lemma parse_phase_bytes parser pf sts pend fed src d off eof :
+  let '(ph1, (g1, t1, j1, o1, e1)) := parse_phase byte_ops parser pf sts pend fed src d off eof in
+  let '(ph2, (g2, t2, j2, o2, e2)) :=
+    parse_phase line_ops parser pf sts pend fed (abs_src src) (abs_dev d) off eof in
+  ph1 = ph2 /\ g1 = g2 /\ o1 = o2 /\ e1 = e2 /\ RS t1 t2 /\ RI j1 j2.
 Proof.
-  apply (pull_loop_sim byte_ops line_ops RI RS parser byte_pull_sim).
+  apply (parse_phase_sim byte_ops line_ops RI RS parser byte_pull_sim).
   - apply RS_abs.
   - reflexivity.
 Qed.
 
-Lemma consumes_minimal_lines_lemma parser pf st (d : dev) off r src' d' off' eof' :
-  pull_loop byte_ops parser pf st [] SrcStdin d off false = (PhDone r, (src', d', off', eof')) ->
-  exists k, decides parser st (split_lines (concat d)) k r /\
+Lemma consumes_minimal_lines_lemma parser pf sts pend fed0 (d : dev) off r fed' src' d' off' eof' :
+  parse_phase byte_ops parser pf sts pend fed0 SrcStdin d off false
+    = (PhDone r, (fed', src', d', off', eof')) ->
+  exists k, decides parser sts (if pend then fed0 else []) (if pend then 0 else 1)%nat
+                    (split_lines (concat d)) k r /\
     concat d = concat (firstn k (split_lines (concat d))) ++ concat d' /\
     off' = off + nlen (concat (firstn k (split_lines (concat d)))) /\
-    concat d' = concat (skipn k (split_lines (concat d))).
+    concat d' = concat (skipn k (split_lines (concat d))) /\
+    fed' = (if pend then fed0 else []) ++ firstn k (feedable (split_lines (concat d))).
 Proof.
-  intros H. pose proof (pull_loop_bytes parser pf st [] SrcStdin d off false) as Hs.
+  intros H. pose proof (parse_phase_bytes parser pf sts pend fed0 SrcStdin d off false) as Hs.
   rewrite H in Hs. cbn [abs_src] in Hs.
-  destruct (pull_loop line_ops parser pf st [] LShared (abs_dev d) off false)
-    as [ph2 [[[t2 j2] o2] e2]] eqn:E.
-  destruct Hs as [<- [<- [<- [_ HI]]]].
-  apply pull_loop_decides in E; [|apply split_lines_no_empty].
-  destruct E as [k [Hk [Hp [Hr [Hmin [_ [Hls [Hoff _]]]]]]]].
-  unfold abs_dev in *. unfold RI in HI. cbn [app] in Hp, Hmin.
+  destruct (parse_phase line_ops parser pf sts pend fed0 LShared (abs_dev d) off false)
+    as [ph2 [[[[g2 t2] j2] o2] e2]] eqn:E.
+  destruct Hs as [<- [<- [<- [<- [_ HI]]]]].
+  apply parse_phase_takes in E; [|apply split_lines_no_empty].
+  destruct E as [k [Hdec [Hfed [_ [Hls [Hoff _]]]]]].
+  unfold abs_dev in *. unfold RI in HI.
   assert (Hd' : concat d' = concat (skipn k (split_lines (concat d)))).
   { rewrite <- Hls, HI. now rewrite concat_split_lines. }
-  exists k. split; [|split; [|split]].
-  - unfold decides. repeat split; try assumption; lia.
-  - rewrite Hd', <- concat_app, firstn_skipn. now rewrite concat_split_lines.
-  - exact Hoff.
-  - exact Hd'.
+  exists k. split; [exact Hdec|]. split; [|split; [exact Hoff | split; [exact Hd' | exact Hfed]]].
+  rewrite Hd', <- concat_app, firstn_skipn. now rewrite concat_split_lines.
 Qed.
 
 (* ------------------------------------------------------------------ *)
@@ -119,12 +119,13 @@ Proof.
 Qed.
 
 Lemma line_read_raw (ls : list line) :
-  line_read true ls =
+  line_read true NL ls =
   (fst (scan_line true (hd [] ls)),
    match ls with [] => false | l :: _ => match snd (scan_line true l) with LNl => true | _ => false end end,
    tl ls, nlen (hd [] ls)).
 Proof.
-  destruct ls as [|l rest]; [reflexivity|]. cbn [line_read hd tl].
+  unfold line_read. change (N.eqb NL NL) with true. cbv iota.
+  destruct ls as [|l rest]; [reflexivity|]. cbn [line_read_nl hd tl].
   pose proof (scan_line_raw l) as H. destruct (scan_line true l) as [cs e]. cbn [fst snd] in *.
   destruct e; try reflexivity. contradiction.
 Qed.
@@ -139,44 +140,34 @@ Proof.
 Qed.
 
 Lemma read_sees_next_line (v : str) (x : xstate (I:=dev)) :
-  let y := fst (exec byte_ops (CRead true v) x) in
+  let y := fst (exec byte_ops (CRead true NL v) x) in
   let ls := split_lines (concat (x_in x)) in
   get_var v (s_vars (x_sh y)) = read_value (fst (scan_line true (hd [] ls))) /\
   concat (x_in y) = concat (tl ls) /\ x_off y = x_off x + nlen (hd [] ls) /\
   x_evs y = x_evs x.
 Proof.
-  cbn [exec op_read byte_ops]. pose proof (read_text_lines true (x_in x)) as H.
+  cbn [exec op_read byte_ops]. pose proof (read_text_lines true NL (x_in x)) as H.
   rewrite line_read_raw in H. destruct H as [d' [-> Hd]]. cbn.
   rewrite get_set_var. repeat split. rewrite <- Hd. now rewrite concat_split_lines.
 Qed.
 
-(* a suffix of the lines of x is the list of lines of its concatenation *)
-Lemma split_lines_skipn (j : nat) : forall x,
-  split_lines (concat (skipn j (split_lines x))) = skipn j (split_lines x).
-Proof.
-  induction j as [|j IH]; intros x.
-  - cbn [skipn]. now rewrite concat_split_lines.
-  - destruct x as [|b x]; [reflexivity|].
-    rewrite (split_lines_first (b :: x)).
-    destruct (first_line (b :: x)) as [[l r] f]. cbn [skipn]. apply IH.
-Qed.
-
-Lemma fd_position_after_command_lemma parser pf st (d : dev) off c src' d' off' eof' :
-  pull_loop byte_ops parser pf st [] SrcStdin d off false
-    = (PhDone (PComplete c), (src', d', off', eof')) ->
-  exists k, decides parser st (split_lines (concat d)) k (PComplete c) /\
+Lemma fd_position_after_command_lemma parser pf sts pend fed0 (d : dev) off c p fed' src' d' off' eof' :
+  parse_phase byte_ops parser pf sts pend fed0 SrcStdin d off false
+    = (PhDone (PComplete c p), (fed', src', d', off', eof')) ->
+  exists k, decides parser sts (if pend then fed0 else []) (if pend then 0 else 1)%nat
+                    (split_lines (concat d)) k (PComplete c p) /\
     let following := skipn k (split_lines (concat d)) in
     concat d' = concat following /\
     (forall sh evs,
         x_evs (fst (exec byte_ops CSlurp (mkX sh d' off' evs)))
         = evs ++ [Ev 2 [concat following] (s_status sh) off']) /\
     (forall sh evs v,
-        let y := fst (exec byte_ops (CRead true v) (mkX sh d' off' evs)) in
+        let y := fst (exec byte_ops (CRead true NL v) (mkX sh d' off' evs)) in
         get_var v (s_vars (x_sh y)) = read_value (fst (scan_line true (hd [] following))) /\
         concat (x_in y) = concat (tl following) /\
         x_off y = off' + nlen (hd [] following)).
 Proof.
-  intros H. destruct (consumes_minimal_lines_lemma _ _ _ _ _ _ _ _ _ _ H) as [k [Hd [_ [_ Hrest]]]].
+  intros H. destruct (consumes_minimal_lines_lemma _ _ _ _ _ _ _ _ _ _ _ _ _ H) as [k [Hd [_ [_ [Hrest _]]]]].
   exists k. split; [exact Hd|]. cbn zeta. split; [exact Hrest|]. split.
   - intros sh evs. destruct (slurp_sees_rest (mkX sh d' off' evs)) as [He _].
     cbn [x_evs x_in x_off] in He. rewrite He, Hrest. reflexivity.
@@ -209,32 +200,35 @@ Proof. intros [->|[y ->]]; [reflexivity | apply split_lines_app_NL]. Qed.
 
 Lemma earlier_lines_take_effect_lemma parser (pf k : nat) (A B B' : list N) (d d' : dev)
     (m : mstate (I:=dev) (SRC:=source)) :
+  reads_lines parser ->
   concat d = A ++ B -> concat d' = A ++ B' -> nl_terminated A -> B <> [] ->
   iter_n byte_ops parser k pf (init SrcStdin d) = inl m ->
   concat (x_in (m_x m)) = B ->
   exists m', iter_n byte_ops parser k pf (init SrcStdin d') = inl m' /\
     concat (x_in (m_x m')) = B' /\
     x_sh (m_x m') = x_sh (m_x m) /\ x_off (m_x m') = x_off (m_x m) /\
-    x_evs (m_x m') = x_evs (m_x m) /\ m_eof m' = m_eof m /\ m_src m' = SrcStdin.
+    x_evs (m_x m') = x_evs (m_x m) /\ m_eof m' = m_eof m /\ m_src m' = SrcStdin /\
+    m_pend m' = m_pend m /\ m_fed m' = m_fed m /\ m_hist m' = m_hist m.
 Proof.
-  intros Hd Hd' HA HB H Hin.
+  intros Hrl Hd Hd' HA HB H Hin.
   assert (Hinit : forall e, RM RI RS (init SrcStdin e) (init LShared (abs_dev e))).
   { intros e. apply init_sim; [constructor | reflexivity]. }
   pose proof (iter_n_sim byte_ops line_ops RI RS parser byte_pull_sim byte_read_sim byte_slurp_sim
                 k pf _ _ (Hinit d)) as Hs.
   rewrite H in Hs.
   destruct (iter_n line_ops parser k pf (init LShared (abs_dev d))) as [n|] eqn:En; [|contradiction].
-  cbn in Hs. destruct Hs as [[Hsh [Hoff [Hevs Hri]]] [Hsrc Heof]].
+  cbn in Hs. destruct Hs as [[Hsh [Hoff [Hevs Hri]]] [Hsrc [Heof [Hpe [Hfe Hhi]]]]].
   unfold abs_dev in En. rewrite Hd, split_lines_app_nl in En by assumption.
   unfold RI in Hri. rewrite Hin in Hri.
   assert (HLB : split_lines B <> []) by (intros E; apply split_lines_nil in E; contradiction).
   destruct (prefix_independence_lines parser (split_lines A) (split_lines B) (split_lines B')
-              k pf n HLB En Hri) as [n' [En' [Hin' [Hsh' [Hoff' [Hevs' [Heof' Hsrc']]]]]]].
+              k pf n Hrl HLB En Hri)
+    as [n' [En' [Hin' [Hsh' [Hoff' [Hevs' [Heof' [Hsrc' [Hpe' [Hfe' Hhi']]]]]]]]]].
   pose proof (iter_n_sim byte_ops line_ops RI RS parser byte_pull_sim byte_read_sim byte_slurp_sim
                 k pf _ _ (Hinit d')) as Hs'.
   unfold abs_dev in Hs'. rewrite Hd', split_lines_app_nl, En' in Hs' by assumption.
   destruct (iter_n byte_ops parser k pf (init SrcStdin d')) as [m'|]; [|contradiction].
-  cbn in Hs'. destruct Hs' as [[Gsh [Goff [Gevs Gri]]] [Gsrc Geof]].
+  cbn in Hs'. destruct Hs' as [[Gsh [Goff [Gevs Gri]]] [Gsrc [Geof [Gpe [Gfe Ghi]]]]].
   exists m'. split; [reflexivity|]. unfold RI in Gri. rewrite Hin' in Gri.
   apply split_lines_inj in Gri. rewrite Hsrc' in Gsrc. inversion Gsrc.
   repeat split; congruence.
@@ -253,7 +247,7 @@ Lemma earlier_lines_take_effect_separate_lemma parser (pf k : nat) (s s' : sourc
     abs_src (m_src m') = LLines LB' /\
     x_sh (m_x m') = x_sh (m_x m) /\ x_off (m_x m') = x_off (m_x m) /\
     x_evs (m_x m') = x_evs (m_x m) /\ concat (x_in (m_x m')) = concat (x_in (m_x m)) /\
-    m_eof m' = m_eof m.
+    m_eof m' = m_eof m /\ m_pend m' = m_pend m /\ m_fed m' = m_fed m /\ m_hist m' = m_hist m.
 Proof.
   intros Hs Hs' HB H Hsrc.
   assert (Hinit : forall t, RM RI RS (init t d) (init (abs_src t) (abs_dev d))).
@@ -262,15 +256,15 @@ Proof.
                 k pf _ _ (Hinit s)) as Hsim.
   rewrite H in Hsim.
   destruct (iter_n line_ops parser k pf (init (abs_src s) (abs_dev d))) as [n|] eqn:En; [|contradiction].
-  cbn in Hsim. destruct Hsim as [[Hsh [Hoff [Hevs Hri]]] [Hrs Heof]].
+  cbn in Hsim. destruct Hsim as [[Hsh [Hoff [Hevs Hri]]] [Hrs [Heof [Hpe [Hfe Hhi]]]]].
   apply RS_inv in Hrs. rewrite Hsrc in Hrs. rewrite Hs in En.
   destruct (prefix_independence_lines_sep parser LA LB LB' (abs_dev d) k pf n HB En Hrs)
-    as [n' [En' [Hsrc' [Hx' Heof']]]].
+    as [n' [En' [Hsrc' [Hx' [Heof' [Hpe' [Hfe' Hhi']]]]]]].
   pose proof (iter_n_sim byte_ops line_ops RI RS parser byte_pull_sim byte_read_sim byte_slurp_sim
                 k pf _ _ (Hinit s')) as Hsim'.
   rewrite Hs', En' in Hsim'.
   destruct (iter_n byte_ops parser k pf (init s' d)) as [m'|]; [|contradiction].
-  cbn in Hsim'. destruct Hsim' as [[Gsh [Goff [Gevs Gri]]] [Grs Geof]].
+  cbn in Hsim'. destruct Hsim' as [[Gsh [Goff [Gevs Gri]]] [Grs [Geof [Gpe [Gfe Ghi]]]]].
   exists m'. split; [reflexivity|]. apply RS_inv in Grs. rewrite Hsrc' in Grs.
   unfold RI in *. rewrite Hx' in *.
   repeat split; try congruence.
@@ -284,21 +278,22 @@ Lemma syntax_error_iteration parser pf (m : mstate (I:=dev) (SRC:=source)) r :
   f_evs r = x_evs (m_x m) /\ f_status r = 2.
 Proof.
   unfold iter.
-  destruct (pull_loop byte_ops parser pf (s_ps (x_sh (m_x m))) [] (m_src m) (x_in (m_x m))
-              (x_off (m_x m)) (m_eof m)) as [ph [[[s' i'] off'] eof']].
+  destruct (parse_phase byte_ops parser pf _ (m_pend m) (m_fed m) (m_src m) (x_in (m_x m))
+              (x_off (m_x m)) (m_eof m)) as [ph [[[[g' s'] i'] off'] eof']].
   destruct ph as [pr| |]; try (intros H; inversion H; subst; cbn; discriminate).
   destruct pr; try (intros H; inversion H; subst; cbn; try discriminate; intros _; split; reflexivity).
   destruct (exec byte_ops c _) as [x2 ex]. destruct ex; intros H; inversion H; subst; cbn; discriminate.
 Qed.
 
 Lemma end_of_input_iteration parser pf (m : mstate (I:=dev) (SRC:=source)) :
-  (1 <= pf)%nat -> m_src m = SrcStdin -> m_eof m = false -> concat (x_in (m_x m)) = [] ->
-  parser (s_ps (x_sh (m_x m))) [[]] = PEnd ->
+  (1 <= pf)%nat -> m_src m = SrcStdin -> m_eof m = false -> m_pend m = false ->
+  concat (x_in (m_x m)) = [] ->
+  parser [s_ps (x_sh (m_x m))] [[]] = PEnd ->
   exists r, iter byte_ops parser pf m = inr r /\ f_tag r = FEnd /\
     f_evs r = x_evs (m_x m) /\ f_status r = x_status (m_x m) /\ f_off r = x_off (m_x m).
 Proof.
-  intros Hpf Hsrc Heof Hin Hend. unfold iter. rewrite Hsrc, Heof.
-  destruct pf as [|pf]; [lia|]. cbn [pull_loop op_pull byte_ops byte_pull].
+  intros Hpf Hsrc Heof Hpe Hin Hend. unfold iter, parse_phase. rewrite Hsrc, Heof, Hpe.
+  destruct pf as [|pf]; [lia|]. cbn [pull_loop op_pull byte_ops byte_pull app].
   pose proof (next_line_lines (x_in (m_x m))) as Hn. rewrite Hin in Hn. cbn in Hn.
   destruct Hn as [d' [-> _]]. cbn [orb app nlen length]. rewrite Hend.
   eexists. split; [reflexivity|]. cbn. rewrite N.add_0_r. repeat split.
@@ -306,24 +301,25 @@ Qed.
 
 Lemma executed_prefix_lemma parser (pf k : nat) (A B : list N) (d dA : dev)
     (m : mstate (I:=dev) (SRC:=source)) r :
+  reads_lines parser ->
   (1 <= pf)%nat ->
   concat d = A ++ B -> concat dA = A -> nl_terminated A -> B <> [] ->
   iter_n byte_ops parser k pf (init SrcStdin d) = inl m ->
   concat (x_in (m_x m)) = B ->
   iter byte_ops parser pf m = inr r -> f_tag r = FSyntax ->
-  m_eof m = false -> parser (s_ps (x_sh (m_x m))) [[]] = PEnd ->
+  m_eof m = false -> m_pend m = false -> parser [s_ps (x_sh (m_x m))] [[]] = PEnd ->
   exists mA rA, iter_n byte_ops parser k pf (init SrcStdin dA) = inl mA /\
     iter byte_ops parser pf mA = inr rA /\ f_tag rA = FEnd /\
     f_evs rA = f_evs r /\ f_off rA = x_off (m_x m) /\ f_status rA = x_status (m_x m).
 Proof.
-  intros Hpf Hd HdA HA HB Hk Hin Hit Htag Heof Hend.
+  intros Hrl Hpf Hd HdA HA HB Hk Hin Hit Htag Heof Hpend Hend.
   assert (HdA' : concat dA = A ++ []) by now rewrite app_nil_r.
-  destruct (earlier_lines_take_effect_lemma parser pf k A B [] d dA m Hd HdA' HA HB Hk Hin)
-    as [mA [HkA [HinA [Hsh [Hoff [Hevs [HeofA HsrcA]]]]]]].
+  destruct (earlier_lines_take_effect_lemma parser pf k A B [] d dA m Hrl Hd HdA' HA HB Hk Hin)
+    as [mA [HkA [HinA [Hsh [Hoff [Hevs [HeofA [HsrcA [HpeA _]]]]]]]]].
   destruct (syntax_error_iteration parser pf m r Hit Htag) as [He _].
-  assert (HendA : parser (s_ps (x_sh (m_x mA))) [[]] = PEnd) by now rewrite Hsh.
-  rewrite Heof in HeofA.
-  destruct (end_of_input_iteration parser pf mA Hpf HsrcA HeofA HinA HendA)
+  assert (HendA : parser [s_ps (x_sh (m_x mA))] [[]] = PEnd) by now rewrite Hsh.
+  rewrite Heof in HeofA. rewrite Hpend in HpeA.
+  destruct (end_of_input_iteration parser pf mA Hpf HsrcA HeofA HpeA HinA HendA)
     as [rA [HitA [HtagA [HevA [HstA HoffA]]]]].
   exists mA, rA. repeat split; try assumption.
   - now rewrite HevA, He, Hevs.
@@ -344,33 +340,27 @@ Qed.
 (* ------------------------------------------------------------------ *)
 (* The whole run is line by line.                                      *)
 
-Lemma run_is_line_by_line_lemma parser fuel (d : dev) :
-  f_tag (model_run parser fuel SrcStdin d) <> FOutOfFuel ->
-  f_tag (model_run parser fuel SrcStdin d) <> FStuck ->
-  line_by_line parser (mkX (mkSh (mkP [] false) [] 0) (split_lines (concat d)) 0 []) false
-    (model_run parser fuel SrcStdin d).
+Lemma run_is_line_by_line_lemma parser fuel pf (d : dev) :
+  f_tag (model_run parser fuel pf SrcStdin d) <> FOutOfFuel ->
+  f_tag (model_run parser fuel pf SrcStdin d) <> FStuck ->
+  line_by_line parser (mkX (mkSh (mkP [] false) [] 0) (split_lines (concat d)) 0 [])
+    false false [] [] (model_run parser fuel pf SrcStdin d).
 Proof.
   rewrite model_refines_spec_lemma. unfold spec_run, run, abs_src, abs_dev. intros H1 H2.
-  apply (loop_line_by_line parser fuel fuel (init LShared (split_lines (concat d)))); try assumption.
+  apply (loop_line_by_line parser fuel pf (init LShared (split_lines (concat d)))); try assumption.
   - reflexivity.
-  - apply split_lines_no_empty.
+  - apply wf_split.
 Qed.
 
 (* ------------------------------------------------------------------ *)
 (* Oracle soundness.                                                   *)
 
-Lemma positions_are_line_boundaries_lemma parser fuel (d : dev) :
-  line_aligned (concat d) (obs_of_final (model_run parser fuel SrcStdin d)) = true.
+Lemma positions_are_line_boundaries_lemma parser fuel pf src (d : dev) :
+  reads_lines parser ->
+  line_aligned (concat d) (obs_of_final (model_run parser fuel pf src d)) = true.
 Proof.
-  rewrite model_refines_spec_lemma. apply line_aligned_sound. unfold spec_run, abs_dev.
-  apply run_ok.
-Qed.
-
-Lemma positions_are_line_boundaries_sep_lemma parser fuel src (d : dev) :
-  line_aligned (concat d) (obs_of_final (model_run parser fuel src d)) = true.
-Proof.
-  rewrite model_refines_spec_lemma. apply line_aligned_sound. unfold spec_run, abs_dev.
-  apply run_ok.
+  intros Hrl. rewrite model_refines_spec_lemma. apply line_aligned_sound. unfold spec_run, abs_dev.
+  now apply run_ok.
 Qed.
 
 Lemma event_eqb_refl e : event_eqb e e = true.
@@ -391,45 +381,76 @@ Proof.
   - intros ->. apply event_eqb_refl.
 Qed.
 
-Lemma model_of_spec_of parser fuel script data f :
-  model_of parser fuel script data f = spec_of parser fuel script data f.
+Lemma model_of_spec_of parser fuel pf script data f :
+  model_of parser fuel pf script data f = spec_of parser fuel pf script data f.
 Proof.
   unfold model_of, spec_of. destruct f; cbn [shared]; rewrite model_refines_spec_lemma;
     unfold abs_dev, abs_src; cbn [concat]; rewrite ?app_nil_r, ?concat_chunk; reflexivity.
 Qed.
 
-(* on what the model itself produces, every clause of the oracle holds *)
-Lemma oracle_sound_lemma parser fuel script data f1 f2 :
-  let o := obs_of_final (model_of parser fuel script data f1) in
+(* on what the model itself produces, every clause of the oracle holds (the
+   line-boundary clause is only applied when no command reads with a
+   delimiter other than newline) *)
+Lemma oracle_sound_lemma parser fuel pf script data f1 f2 :
+  let o := obs_of_final (model_of parser fuel pf script data f1) in
   (shared f1 = true -> shared f2 = true ->
-   obs_eqb (obs_of_final (model_of parser fuel script data f2)) o = true) /\
-  line_aligned (if shared f1 then script else data) o = true /\
-  obs_eqb (obs_of_final (spec_of parser fuel script data f1)) o = true.
+   obs_eqb (obs_of_final (model_of parser fuel pf script data f2)) o = true) /\
+  (reads_lines parser -> line_aligned (if shared f1 then script else data) o = true) /\
+  obs_eqb (obs_of_final (spec_of parser fuel pf script data f1)) o = true.
 Proof.
   cbn zeta. split; [|split].
   - intros H1 H2. rewrite !model_of_spec_of. unfold spec_of. rewrite H1, H2. apply obs_eqb_refl.
-  - unfold model_of. destruct f1; cbn [shared].
-    + pose proof (positions_are_line_boundaries_lemma parser fuel [script]) as H.
+  - intros Hrl. unfold model_of. destruct f1; cbn [shared].
+    + pose proof (positions_are_line_boundaries_lemma parser fuel pf SrcStdin [script] Hrl) as H.
       cbn [concat] in H. now rewrite app_nil_r in H.
-    + pose proof (positions_are_line_boundaries_lemma parser fuel (chunk sizes script)) as H.
+    + pose proof (positions_are_line_boundaries_lemma parser fuel pf SrcStdin (chunk sizes script) Hrl) as H.
       now rewrite concat_chunk in H.
-    + pose proof (positions_are_line_boundaries_sep_lemma parser fuel (SrcMem (split_lines script)) [data]) as H.
+    + pose proof (positions_are_line_boundaries_lemma parser fuel pf (SrcMem (split_lines script)) [data] Hrl) as H.
       cbn [concat] in H. now rewrite app_nil_r in H.
-    + pose proof (positions_are_line_boundaries_sep_lemma parser fuel (SrcOwn [script]) [data]) as H.
+    + pose proof (positions_are_line_boundaries_lemma parser fuel pf (SrcOwn [script]) [data] Hrl) as H.
       cbn [concat] in H. now rewrite app_nil_r in H.
   - rewrite model_of_spec_of. apply obs_eqb_refl.
+Qed.
+
+(* the table-driven parser of the check reads lines only if the table says so *)
+Lemma tab_parser_reads_lines (t : list xentry) :
+  table_reads_lines t = true -> reads_lines (tab_parser t).
+Proof.
+  intros Ht sts fed c p H. unfold tab_parser in H.
+  destruct (find _ t) as [[[s f] r]|] eqn:Ef.
+  - apply find_some in Ef. destruct Ef as [Hin _]. subst r.
+    unfold table_reads_lines in Ht. rewrite forallb_forall in Ht. exact (Ht _ Hin).
+  - destruct (existsb _ t); discriminate.
+Qed.
+
+Lemma tab_parser_depth (t : list xentry) : pend_depth (tab_parser t) (table_depth t).
+Proof.
+  intros sts fed c H. unfold tab_parser in H.
+  destruct (find _ t) as [[[s f] r]|] eqn:Ef.
+  - apply find_some in Ef. destruct Ef as [Hin Heq]. subst r.
+    apply andb_true_iff in Heq. destruct Heq as [Heq _].
+    assert (Hlen : length sts = length s).
+    { clear - Heq. unfold sts_eqb in Heq. revert s Heq.
+      induction sts as [|a sts IH]; intros [|b s] H; cbn in *; try discriminate; [reflexivity|].
+      apply andb_true_iff in H. destruct H as [_ H]. f_equal. now apply IH. }
+    rewrite Hlen. unfold table_depth. clear - Hin.
+    induction t as [|e t IH]; [contradiction|]. cbn [fold_right]. destruct Hin as [->|Hin].
+    + cbn [fst]. lia.
+    + specialize (IH Hin). lia.
+  - destruct (existsb _ t); discriminate.
 Qed.
 
 (* ------------------------------------------------------------------ *)
 (* Fuel.                                                               *)
 
-Lemma fuel_never_runs_out_lemma parser fuel src (d : dev) :
-  ends_at_eof parser ->
-  (src_bytes src d + 2 <= fuel)%nat ->
-  f_tag (model_run parser fuel src d) <> FOutOfFuel.
+Lemma fuel_never_runs_out_lemma parser (K fuel pf : nat) src (d : dev) :
+  ends_at_eof parser -> pend_depth parser K -> (1 <= K)%nat ->
+  (src_bytes src d + 2 <= pf)%nat -> (pf * K + 1 <= fuel)%nat ->
+  f_tag (model_run parser fuel pf src d) <> FOutOfFuel.
 Proof.
-  intros He Hf. rewrite model_refines_spec_lemma. unfold spec_run. apply run_fuel; [exact He|].
-  unfold src_bytes in Hf. destruct src as [|d0|ls]; cbn [abs_src src_size] in *; unfold abs_dev.
+  intros He Hd HK Hpf Hf. rewrite model_refines_spec_lemma. unfold spec_run.
+  apply (run_fuel parser K He Hd HK); [apply wf_split | | exact Hf].
+  unfold src_bytes in Hpf. destruct src as [|d0|ls]; cbn [abs_src src_size] in *; unfold abs_dev.
   - pose proof (split_lines_length (concat d)). lia.
   - pose proof (split_lines_length (concat d0)). lia.
   - lia.
